@@ -20,7 +20,7 @@ _TRUST = ("Trusted: Lean kernel, axioms propext/Classical.choice/Quot.sound; the
 
 REG = {
     "C06": {
-        "module": ["Props.C06", "Props.C06Complete", "Props.C06Relaxed", "Props.C06WireIO", "Props.C06Float"],
+        "module": ["Props.C06", "Props.C06Complete", "Props.C06Relaxed", "Props.C06WireIO", "Props.C06Float", "Props.C06Gen"],
         "suites": [("wire", (8000, 150000)), ("floatconv", (3000, 60000))],
         "rule": _RULE_TYPES + " x values (boundary and out-of-range integers up to 2**70, bool-as-int, NaN/inf/subnormal/tie floats and huge "
                 "ints for float fields, empty and full arrays, multi-byte UTF-8 as str and bytes, omitted fields, shuffled dict order), "
@@ -63,13 +63,19 @@ REG = {
             "C06.length is about the model's own length predicate HasLen (its equality with the library's BitLengthSet belongs to C02)",
             "both code paths of _BitWriter/_BitReader: Props/C06BitIO.lean + Props/C06WireIO.lean prove that the codec driven over the two-path byte-buffer "
             "model (Model/WireIO.lean: write_bits / align_to / finish / read_bits / remaining_bits / bounded_subreader in Python's call order) equals Wire.enc / "
-            "Wire.dec; what remains by correspondence only is the fidelity of Model/BitIO.lean to the private classes (bitio suite) and the call order of "
-            "Model/WireIO.lean (its results are proved equal to the validated Wire.enc / Wire.dec; a trace comparison is not implemented)",
+            "Wire.dec; Model/BitIO.lean's writer is tied to the private class _BitWriter by TRANSLATION: Gen/Serdes.lean is re-generated from "
+            "_serdes.py on every run (tools/py2lean_serdes.py; state-passing, byte buffers, write_bits' self-call with CPython's recursion limit as fuel) and "
+            "Bridge/Serdes.lean proves that the generated write_bits / align_to / finish never raise and equal BitIO.writeBits / alignTo on the bit view of the "
+            "byte buffer from every state whose position is not behind the end of its buffer - all three buffer cases of the aligned branch and the bit-wise "
+            "loop (C06.gen_write_bits_is_model, C06.gen_write_bits_appends, C06.gen_align_to_pads, C06.gen_writer_history); trusted there: the translator and "
+            "lean/PyLib.lean (meaning of divmod, shifts, masks, `x & ~m`, int.to_bytes / from_bytes, bytearray slice / item assignment, extend / append); "
+            "what remains by correspondence only is the call order of Model/WireIO.lean (its results are proved equal to the validated Wire.enc / Wire.dec; a trace "
+            "comparison is not implemented) and that write_bits is only called with non-negative values (the callers mask them)",
         ],
         "assumptions": [_MODEL],
     },
     "C07": {
-        "module": ["Props.C07", "Props.C06WireIO"],
+        "module": ["Props.C07", "Props.C06WireIO", "Props.C07Gen"],
         "suites": [("wire", (12000, 150000))],
         "rule": _RULE_TYPES + " x byte strings: random bytes (uniform, mostly-zero, constant), a valid representation (reference encoder) with junk "
                 "suffixes, prefixes of valid representations (all prefixes for short ones), 1-2 bit flips, one length prefix / union tag / delimiter "
@@ -93,7 +99,12 @@ REG = {
             "both read paths (aligned fast path, bit-wise slow path): C07.reader_refines_dec / C07.deserialize_bytes (Props/C06WireIO.lean) prove that the "
             "decoder driven over the two-path _BitReader model (limit logic, remaining_bits check, bounded sub-readers) returns exactly what Wire.dec "
             "returns, value or error class, for every well-formed type and every reader state satisfying the invariant RInv (start <= offset, limit within "
-            "the data), which the initial reader satisfies and every step preserves; only the fidelity of Model/BitIO.lean to the private class is by correspondence",
+            "the data), which the initial reader satisfies and every step preserves; Model/BitIO.lean's reader is tied to the private class _BitReader by "
+            "TRANSLATION (Gen/Serdes.lean re-generated from _serdes.py on every run; Bridge/Serdes.lean): for every reader state whose data are bytes and whose "
+            "position is not before its start the generated read_bits (limit logic, aligned branch with zero padding, bit-wise loop, both self-calls), align_to, "
+            "bounded_subreader, remaining_bits never raise and equal BitIO.readBits / Rd.alignTo / Rd.sub / Rd.remaining (C07.gen_read_bits_is_model, "
+            "C07.gen_read_bits_window, C07.gen_reader_history, C07.gen_sub_reader_window, C07.gen_remaining_bits, C07.gen_reader_align_to); trusted there: the "
+            "translator and lean/PyLib.lean",
         ],
         "assumptions": [_MODEL],
     },
